@@ -74,6 +74,8 @@ Continue ==
   CASE POp(pend) = "request" -> avail < PArg(pend) /\ ~complete
     [] POp(pend) = "byte_at" -> avail <= PArg(pend) /\ ~complete
     [] POp(pend) = "more"    -> ~PDone(pend) /\ ~complete
+    \* a scanning helper of flussab::text: needs the byte at offset PArg (-1: nothing) or its absence
+    [] POp(pend) = "need"    -> avail <= PArg(pend) /\ ~complete
     [] OTHER               -> FALSE
 
 AInit(s, lim, f, pre) ==
@@ -85,7 +87,7 @@ AInit(s, lim, f, pre) ==
 \* The client starts request(n) / request_byte_at_offset(k) / request_more().
 ACall(p) ==
   /\ pend = Idle
-  /\ POp(p) \in {"request", "byte_at", "more"}
+  /\ POp(p) \in {"request", "byte_at", "more", "need"}
   /\ pend' = p
   /\ scalls' = 0
   /\ UNCHANGED <<envvars, preLeft, soff, sdone, pos, avail, mark, complete, err, chunk, ret>>
@@ -127,6 +129,7 @@ AReturn ==
   /\ ret' = CASE POp(pend) = "request" -> <<"request", avail, avail < PArg(pend), scalls>>
               [] POp(pend) = "byte_at" -> <<"byte_at", PArg(pend) < avail, IF PArg(pend) < avail THEN stream[pos + PArg(pend) + 1] ELSE -1, scalls>>
               [] POp(pend) = "more"    -> <<"more", PDone(pend), 0, scalls>>
+              [] POp(pend) = "need"    -> <<"need", 0, 0, scalls>>
   /\ pend' = Idle
   /\ UNCHANGED <<envvars, preLeft, soff, sdone, scalls, pos, avail, mark, complete, err, chunk>>
 
